@@ -237,6 +237,22 @@ func runC15(r *rt.Runner) {
 			} else if d := compareMetrics(m, m2, -1, true); len(d) > 0 {
 				c.Violation("layout|"+diffKind15(d[0]), "the independently laid out file reads differently from M:\n  "+joinLines(d), "file:\n"+head(text2, 3000))
 			}
+			// results belong to the caller: write into them (a later Read in this
+			// process must not see it)
+			for _, mm := range []*afm.Metrics{m1, m2} {
+				if mm == nil {
+					continue
+				}
+				for i := range mm.Encoding {
+					mm.Encoding[i] = "scribbled"
+				}
+				for _, g := range mm.Glyphs {
+					g.WidthX = -1
+					for k := range g.Ligatures {
+						g.Ligatures[k] = "scribbled"
+					}
+				}
+			}
 			c.Count("independent layouts read")
 			for ft := range o.features {
 				c.Count("feature: " + ft)
